@@ -4,6 +4,11 @@
 //   C04  21/19/17-wide batch paths     instruction model in TAGGED mode (arm_model.rs header: sound over-approximation)
 //   (C16 zeroize on drop: inner module harness/aes/auto_inner_arm.rs of crate::autodetect)
 //   C17  armv8/hazmat.rs               CONCRETE instruction model vs the FIPS-197 round transformations of the oracle
+// (never compiled: lets lib/bcv/shadow.py find the cuf1! invocations of the instruction model, which is copied into the
+// shadow crate as src/verif_arch.rs and is not a harness file)
+#[cfg(any())]
+#[path = "/verif/harness/aes/arm_model.rs"]
+mod scan_arm_model;
 use super::ni_model;
 use super::prelude::*;
 use crate::verif_arch as va;
@@ -117,63 +122,110 @@ conv_set!(aes192_arm_from_enc_val, aes192_arm_from_enc_ref, aes192_arm_dec_from_
 conv_set!(aes256_arm_from_enc_val, aes256_arm_from_enc_ref, aes256_arm_dec_from_enc, aes256_arm_clones, crate::Aes256, crate::Aes256Enc, crate::Aes256Dec, 32);
 
 // ------------------------------------------------------------------ C04: the W-wide ARMv8 batch paths (W = 21 / 19 / 17)
-// n blocks carved out of a byte buffer at offset `off` (symbolic 0..=15 in the small harnesses, the odd constant 7 in the
-// large ones: the code under test never inspects addresses, and vld1q_u8/vst1q_u8 have no alignment requirement), guard
-// bytes before and after; per-block reference = the single-block call on the same instance.  Three passes over the same n
-// blocks (reference, in-place batch, b2b batch); the instruction model runs in TAGGED mode: the call of round r on block j
-// of each pass is constrained to agree with the same (r, j) call of the first pass when their arguments agree (constant
-// cost per call instead of the quadratic Ackermann log, which makes n = W + 1 = 22 blocks x 19 instructions x 3 passes
-// feasible).  Checks are accumulated without early returns (keeps the path guards of the symbolic execution small).
+// n blocks; per-block reference = the single-block call on the same instance.  Two harness forms over the same n blocks:
+//   ip   reference pass + in-place multi-block call on n blocks carved out of a byte buffer at offset `off` (symbolic
+//        0..=15 in the small harnesses, the odd constant 7 in the large ones: the code under test never inspects
+//        addresses, and vld1q_u8/vst1q_u8 have no alignment requirement), 0xC3 guard bytes before and after;
+//   b2b  reference pass + buffer-to-buffer multi-block call: separate input unchanged, output as per block.
+// The instruction model runs in TAGGED mode: the call of round r on block j of the multi-block pass is constrained to
+// agree with the (r, j) call of the reference pass when their arguments agree (constant cost per call instead of the
+// quadratic Ackermann log, which makes n = W + 1 = 22 blocks x 19 instructions x 2 passes feasible).  Checks are
+// accumulated without early returns (keeps the path guards of the symbolic execution small).
 macro_rules! arm_batch {
-    ($name:ident, $ty:ty, $klen:expr, $w:expr, $n:expr, $dec:expr, $off:expr) => {
+    (@common $inp:ident, $ty:ty, $klen:expr, $w:expr, $n:expr, $dec:expr, $c:ident, $r:ident) => {
+        ni_model::set_cpu(true);
+        const N: usize = $n;
+        const W: usize = $w;
+        const R: usize = $klen / 4 + 6;
+        let key: [u8; $klen] = take($inp, 0);
+        let $c = <$ty>::new(&key.into());
+        // reference pass: N single-block calls
+        va::tag::begin_pass(0, W, R);
+        let mut $r = [[0u8; 16]; N];
+        let mut j = 0;
+        while j < N {
+            let x: [u8; 16] = take($inp, $klen + 16 * j);
+            let mut b: Block<$ty> = x.into();
+            if $dec { $c.decrypt_block(&mut b) } else { $c.encrypt_block(&mut b) };
+            $r[j] = b.0;
+            j += 1;
+        }
+        va::tag::begin_pass(N / W, W, R);
+    };
+    (ip, $name:ident, $ty:ty, $klen:expr, $w:expr, $n:expr, $dec:expr, $off:expr) => {
         arm_harness!($name, $klen + 16 * $n + 1, 400, |inp| {
-            ni_model::set_cpu(true);
-            const N: usize = $n;
-            const W: usize = $w;
-            const R: usize = $klen / 4 + 6;
-            let key: [u8; $klen] = take(inp, 0);
+            arm_batch!(@common inp, $ty, $klen, $w, $n, $dec, c, r);
             let off: usize = $off(inp[$klen + 16 * N]);      // direct call (a fn pointer would make `off` symbolic for the solver)
-            let c = <$ty>::new(&key.into());
             let mut good = true;
-            // pass 1: reference, N single-block calls
-            va::tag::begin_pass(0, W, R);
-            let mut r = [[0u8; 16]; N];
-            let mut j = 0;
-            while j < N {
-                let x: [u8; 16] = take(inp, $klen + 16 * j);
-                let mut b: Block<$ty> = x.into();
-                if $dec { c.decrypt_block(&mut b) } else { c.encrypt_block(&mut b) };
-                r[j] = b.0;
-                j += 1;
-            }
-            // pass 2: in-place batch inside a larger buffer at offset `off`, 0xC3 guards around
             let mut buf = [0xC3u8; 16 * N + 32];
-            j = 0;
+            let mut j = 0;
             while j < 16 * N {
                 buf[off + j] = inp[$klen + j];
                 j += 1;
             }
-            va::tag::begin_pass(N / W, W, R);
             {
                 let blocks: &mut [Block<$ty>] = unsafe { core::slice::from_raw_parts_mut(buf.as_mut_ptr().add(off) as *mut Block<$ty>, N) };
                 if $dec { c.decrypt_blocks(blocks) } else { c.encrypt_blocks(blocks) };
             }
+            va::tag::end();
             j = 0;
             while j < 16 * N + 32 {
                 let want = if j >= off && j < off + 16 * N { r[(j - off) / 16][(j - off) % 16] } else { 0xC3 };
                 good &= buf[j] == want;
                 j += 1;
             }
-            // pass 3: b2b batch: separate input unchanged, output as per block
+            Some(good)
+        });
+    };
+    (ipc, $name:ident, $ty:ty, $klen:expr, $w:expr, $n:expr, $dec:expr) => {
+        arm_harness!($name, $klen + 16 * $n, 400, |inp| {
+            arm_batch!(@common inp, $ty, $klen, $w, $n, $dec, c, r);
+            // the N blocks sit at the odd offset 7 of a frame with 0xC3 guard bytes before and after
+            let mut f = Frame::<N> { pre: [0xC3u8; 7], mid: [[0u8; 16]; N], post: [0xC3u8; 9] };
+            let mut j = 0;
+            while j < N {
+                f.mid[j] = take(inp, $klen + 16 * j);
+                j += 1;
+            }
+            {
+                let blocks: &mut [Block<$ty>] = unsafe { core::slice::from_raw_parts_mut(f.mid.as_mut_ptr() as *mut Block<$ty>, N) };
+                if $dec { c.decrypt_blocks(blocks) } else { c.encrypt_blocks(blocks) };
+            }
+            va::tag::end();
+            let mut good = true;
+            j = 0;
+            while j < 7 {
+                good &= f.pre[j] == 0xC3;
+                j += 1;
+            }
+            j = 0;
+            while j < 9 {
+                good &= f.post[j] == 0xC3;
+                j += 1;
+            }
+            j = 0;
+            while j < N {
+                let mut k = 0;
+                while k < 16 {
+                    good &= f.mid[j][k] == r[j][k];
+                    k += 1;
+                }
+                j += 1;
+            }
+            Some(good)
+        });
+    };
+    (b2b, $name:ident, $ty:ty, $klen:expr, $w:expr, $n:expr, $dec:expr) => {
+        arm_harness!($name, $klen + 16 * $n, 400, |inp| {
+            arm_batch!(@common inp, $ty, $klen, $w, $n, $dec, c, r);
             let mut ins: [Block<$ty>; N] = [[0u8; 16].into(); N];
             let mut outs: [Block<$ty>; N] = [[0xA5u8; 16].into(); N];
-            j = 0;
+            let mut j = 0;
             while j < N {
                 ins[j] = take::<16>(inp, $klen + 16 * j).into();
                 j += 1;
             }
-            va::tag::begin_pass(N / W, W, R);
-            good &= if $dec { c.decrypt_blocks_b2b(&ins, &mut outs).is_ok() } else { c.encrypt_blocks_b2b(&ins, &mut outs).is_ok() };
+            let mut good = if $dec { c.decrypt_blocks_b2b(&ins, &mut outs).is_ok() } else { c.encrypt_blocks_b2b(&ins, &mut outs).is_ok() };
             va::tag::end();
             j = 0;
             while j < N {
@@ -189,30 +241,44 @@ macro_rules! arm_batch {
         });
     };
 }
+/// N blocks at the odd byte offset 7 of a byte-aligned frame, guard bytes around (for the large in-place harnesses: one
+/// flat [u8; 16 N + 32] buffer would be a > 64-element array, which CBMC handles through its array theory at a
+/// prohibitive cost)
+#[repr(C)]
+struct Frame<const N: usize> {
+    pre: [u8; 7],
+    mid: [[u8; 16]; N],
+    post: [u8; 9],
+}
 fn off_sym(b: u8) -> usize {
     (b & 15) as usize
 }
-fn off_7(_b: u8) -> usize {
-    7
-}
-//@ harness name=aes128_arm_batch22_enc prop=C04,C20 tier=thorough bits=2944 stub=1 est=900 variants=aes:armv8 desc="Aes128 (ARMv8 arm, ParBlocksSize = 21) encrypt_blocks / encrypt_blocks_b2b on 22 blocks (one full 21-wide encrypt_par batch + a tail of 1) at buffer offset 7 equal 22 single-block calls; guard bytes and the separate input unchanged; all keys and contents"
-arm_batch!(aes128_arm_batch22_enc, crate::Aes128, 16, 21, 22, false, off_7);
-//@ harness name=aes128_arm_batch22_dec prop=C04,C20 tier=thorough bits=2944 stub=1 est=900 variants=aes:armv8 desc="Aes128 (ARMv8 arm) decrypt_blocks / decrypt_blocks_b2b on 22 blocks (21-wide decrypt_par batch + tail) equal 22 single-block calls; guards and input unchanged"
-arm_batch!(aes128_arm_batch22_dec, crate::Aes128, 16, 21, 22, true, off_7);
-//@ harness name=aes128_arm_batch3_enc prop=C04,C20 tier=quick bits=520 stub=1 est=220 variants=aes:armv8 desc="Aes128 (ARMv8 arm): 3 blocks (fewer than the parallel width: tail path only) at a symbolic buffer offset 0..15: encrypt_blocks / encrypt_blocks_b2b equal three single-block calls; guards and the separate input unchanged; all keys and contents"
-arm_batch!(aes128_arm_batch3_enc, crate::Aes128, 16, 21, 3, false, off_sym);
-//@ harness name=aes128_arm_batch3_dec prop=C04,C20 tier=quick bits=520 stub=1 est=220 variants=aes:armv8 desc="as aes128_arm_batch3_enc, decrypt"
-arm_batch!(aes128_arm_batch3_dec, crate::Aes128, 16, 21, 3, true, off_sym);
-//@ harness name=aes128_arm_batch21_enc prop=C04 tier=thorough bits=2816 stub=1 est=900 variants=aes:armv8 desc="as batch22, n = 21 (exactly the parallel width, empty tail), encrypt"
-arm_batch!(aes128_arm_batch21_enc, crate::Aes128, 16, 21, 21, false, off_7);
-//@ harness name=aes192_arm_batch20_enc prop=C04,C20 tier=thorough bits=2752 stub=1 est=900 variants=aes:armv8 desc="Aes192 (ARMv8 arm, ParBlocksSize = 19): 20 blocks (19-wide batch incl. the KEYS >= 13 rounds + tail of 1) at buffer offset 7 equal 20 single-block calls, encrypt"
-arm_batch!(aes192_arm_batch20_enc, crate::Aes192, 24, 19, 20, false, off_7);
-//@ harness name=aes192_arm_batch20_dec prop=C04,C20 tier=thorough bits=2752 stub=1 est=900 variants=aes:armv8 desc="Aes192 (ARMv8 arm): 20 blocks, decrypt"
-arm_batch!(aes192_arm_batch20_dec, crate::Aes192, 24, 19, 20, true, off_7);
-//@ harness name=aes256_arm_batch18_enc prop=C04,C20 tier=thorough bits=2560 stub=1 est=900 variants=aes:armv8 desc="Aes256 (ARMv8 arm, ParBlocksSize = 17): 18 blocks (17-wide batch incl. the KEYS == 15 rounds + tail of 1) at buffer offset 7 equal 18 single-block calls, encrypt"
-arm_batch!(aes256_arm_batch18_enc, crate::Aes256, 32, 17, 18, false, off_7);
-//@ harness name=aes256_arm_batch18_dec prop=C04,C20 tier=thorough bits=2560 stub=1 est=900 variants=aes:armv8 desc="Aes256 (ARMv8 arm): 18 blocks, decrypt"
-arm_batch!(aes256_arm_batch18_dec, crate::Aes256, 32, 17, 18, true, off_7);
+//@ harness name=aes128_arm_batch22_enc_ip prop=C04,C20 tier=thorough bits=2944 stub=1 est=500 variants=aes:armv8 desc="Aes128 (ARMv8 arm, ParBlocksSize = 21) encrypt_blocks in place on 22 blocks (one full 21-wide encrypt_par batch + a tail of 1) at the odd offset 7 of a guarded frame equals 22 single-block calls; guard bytes around the buffer unchanged; all keys and contents"
+arm_batch!(ipc, aes128_arm_batch22_enc_ip, crate::Aes128, 16, 21, 22, false);
+//@ harness name=aes128_arm_batch22_enc_b2b prop=C04,C20 tier=thorough bits=2944 stub=1 est=500 variants=aes:armv8 desc="Aes128 (ARMv8 arm) encrypt_blocks_b2b on 22 blocks (21-wide batch + tail of 1) equals 22 single-block calls; the separate input is unchanged; all keys and contents"
+arm_batch!(b2b, aes128_arm_batch22_enc_b2b, crate::Aes128, 16, 21, 22, false);
+//@ harness name=aes128_arm_batch22_dec_ip prop=C04,C20 tier=thorough bits=2944 stub=1 est=500 variants=aes:armv8 desc="Aes128 (ARMv8 arm) decrypt_blocks in place on 22 blocks (21-wide decrypt_par batch + tail) at the odd offset 7 of a guarded frame equals 22 single-block calls; guards unchanged"
+arm_batch!(ipc, aes128_arm_batch22_dec_ip, crate::Aes128, 16, 21, 22, true);
+//@ harness name=aes128_arm_batch22_dec_b2b prop=C04,C20 tier=thorough bits=2944 stub=1 est=500 variants=aes:armv8 desc="Aes128 (ARMv8 arm) decrypt_blocks_b2b on 22 blocks equals 22 single-block calls; input unchanged"
+arm_batch!(b2b, aes128_arm_batch22_dec_b2b, crate::Aes128, 16, 21, 22, true);
+//@ harness name=aes128_arm_batch3_enc_ip prop=C04,C20 tier=quick bits=520 stub=1 est=150 variants=aes:armv8 desc="Aes128 (ARMv8 arm): 3 blocks (fewer than the parallel width: tail path only) at a symbolic buffer offset 0..15: encrypt_blocks in place equals three single-block calls; guards unchanged; all keys and contents"
+arm_batch!(ip, aes128_arm_batch3_enc_ip, crate::Aes128, 16, 21, 3, false, off_sym);
+//@ harness name=aes128_arm_batch3_enc_b2b prop=C04,C20 tier=quick bits=512 stub=1 est=100 variants=aes:armv8 desc="Aes128 (ARMv8 arm): encrypt_blocks_b2b on 3 blocks equals three single-block calls; input unchanged"
+arm_batch!(b2b, aes128_arm_batch3_enc_b2b, crate::Aes128, 16, 21, 3, false);
+//@ harness name=aes128_arm_batch3_dec_ip prop=C04,C20 tier=quick bits=520 stub=1 est=150 variants=aes:armv8 desc="as aes128_arm_batch3_enc_ip, decrypt"
+arm_batch!(ip, aes128_arm_batch3_dec_ip, crate::Aes128, 16, 21, 3, true, off_sym);
+//@ harness name=aes128_arm_batch3_dec_b2b prop=C04,C20 tier=quick bits=512 stub=1 est=100 variants=aes:armv8 desc="as aes128_arm_batch3_enc_b2b, decrypt"
+arm_batch!(b2b, aes128_arm_batch3_dec_b2b, crate::Aes128, 16, 21, 3, true);
+//@ harness name=aes128_arm_batch21_enc_ip prop=C04 tier=thorough bits=2816 stub=1 est=500 variants=aes:armv8 desc="as aes128_arm_batch22_enc_ip, n = 21 (exactly the parallel width, empty tail)"
+arm_batch!(ipc, aes128_arm_batch21_enc_ip, crate::Aes128, 16, 21, 21, false);
+//@ harness name=aes192_arm_batch20_enc_ip prop=C04,C20 tier=thorough bits=2752 stub=1 est=500 variants=aes:armv8 desc="Aes192 (ARMv8 arm, ParBlocksSize = 19): encrypt_blocks in place on 20 blocks (19-wide batch incl. the KEYS >= 13 rounds + tail of 1) at the odd offset 7 of a guarded frame equals 20 single-block calls"
+arm_batch!(ipc, aes192_arm_batch20_enc_ip, crate::Aes192, 24, 19, 20, false);
+//@ harness name=aes192_arm_batch20_dec_b2b prop=C04,C20 tier=thorough bits=2752 stub=1 est=500 variants=aes:armv8 desc="Aes192 (ARMv8 arm): decrypt_blocks_b2b on 20 blocks equals 20 single-block calls; input unchanged"
+arm_batch!(b2b, aes192_arm_batch20_dec_b2b, crate::Aes192, 24, 19, 20, true);
+//@ harness name=aes256_arm_batch18_enc_b2b prop=C04,C20 tier=thorough bits=2560 stub=1 est=500 variants=aes:armv8 desc="Aes256 (ARMv8 arm, ParBlocksSize = 17): encrypt_blocks_b2b on 18 blocks (17-wide batch incl. the KEYS == 15 rounds + tail of 1) equals 18 single-block calls; input unchanged"
+arm_batch!(b2b, aes256_arm_batch18_enc_b2b, crate::Aes256, 32, 17, 18, false);
+//@ harness name=aes256_arm_batch18_dec_ip prop=C04,C20 tier=thorough bits=2560 stub=1 est=500 variants=aes:armv8 desc="Aes256 (ARMv8 arm): decrypt_blocks in place on 18 blocks at the odd offset 7 of a guarded frame equals 18 single-block calls; guards unchanged"
+arm_batch!(ipc, aes256_arm_batch18_dec_ip, crate::Aes256, 32, 17, 18, true);
 
 // ------------------------------------------------------------------ C17: aes::hazmat on the aarch64 build
 // CONCRETE instruction model (the round functions themselves are the subject, nothing is abstracted).  The CPU feature
